@@ -32,12 +32,12 @@ func (panel *userPanel) VerifUsers() []VerifUser {
 }
 
 func (u *ActiveUser) VerifNumSessions() int { return len(u.sessions) }
-func (u *ActiveUser) VerifUID() [16]byte   { return u.arrUID }
+func (u *ActiveUser) VerifUID() [16]byte    { return u.arrUID }
 func (u *ActiveUser) VerifValve() mux.Valve { return u.valve }
 
-func (panel *userPanel) VerifUpdateUsageQueue() { panel.updateUsageQueue() }
+func (panel *userPanel) VerifUpdateUsageQueue()   { panel.updateUsageQueue() }
 func (panel *userPanel) VerifCommitUpdate() error { return panel.commitUpdate() }
-func (panel *userPanel) VerifQueueLen() int { return len(panel.usageUpdateQueue) }
+func (panel *userPanel) VerifQueueLen() int       { return len(panel.usageUpdateQueue) }
 
 func (sta *State) VerifUsedRandomLen() int { return len(sta.UsedRandom) }
 
